@@ -64,7 +64,7 @@ def gen_atom(rng, rows, depth):
         return f"{neg}{k}:{op}{v}"
     if r < 0.76:
         body = row["body"]
-        words = [w for w in body.replace("\n", " ").split(" ") if w and "'" not in w and '"' not in w and "|" not in w and "!" not in w and "[" not in w and "]" not in w and ";" not in w and "\\" not in w]
+        words = [w for w in body.replace("\n", " ").split(" ") if w and not (len(w) == 6 and w.isdigit()) and "'" not in w and '"' not in w and "|" not in w and "!" not in w and "[" not in w and "]" not in w and ";" not in w and "\\" not in w]
         meta = [w for w in body.replace("\n", " ").split(" ") if w and ("_" in w or "%" in w or "\\" in w) and "'" not in w and "|" not in w and "[" not in w]
         cs = "c" if rng.random() < 0.25 else ""
         if meta and rng.random() < 0.35:
